@@ -92,7 +92,13 @@ def main():
                 raise core.HarnessError("lake build failed")
         audit = None
         if level in ("proof", "other") and props_modules:
-            buildable = [m for m in props_modules if not any(m in b for b in broken)]
+            broken_mods = {b.split()[2] for b in broken if b.startswith("lean module ")}
+            bad = {m for m in props_modules if m in broken_mods or (m.replace(".", "/") + ".lean") in broken_mods}
+            # a module that imports a broken module does not build either
+            for m in props_modules:
+                if module_closure([m]) & {x.replace("/", ".").removesuffix(".lean") for x in broken_mods}:
+                    bad.add(m)
+            buildable = [m for m in props_modules if m not in bad]
             if thorough_clean := (args.tier == "thorough" and os.environ.get("VERIF_LEANCHECKER", "1") == "1"):
                 pass
             audit = core.lean_audit(buildable)
